@@ -17,6 +17,17 @@ CHECKS = {
         design="5 C18"),
 }
 
+CHECKS["C10"] = dict(
+    engine="tlc+controlled-scheduler",
+    technique="TLA+ channel semantics (GoChan) as judge: outcome sets from TLC (GoChanProg) + TLC trace validation (GoChanTrace) of histories from the real z_chan.go driven through all interleavings by a controlled scheduler; PlusCal ChanImpl model-checked against GoChan",
+    text="The real z_chan.go (copied from the working tree, imports redirected to scheduler gates) is executed under every interleaving at "
+         "lock/wait/signal granularity (exhaustive DFS for ~95% of ~270 scenarios, preemption-bounded DFS with spurious wake-ups, seeded random), "
+         "and every outcome and distinct API-level history must be a behaviour of the TLA+ channel semantics, including legal-deadlock analysis "
+         "(NoStuckPair). Lost wake-ups, double delivery, wrong ok flags, missed panics and select mis-commits are reached because the schedule space is enumerated, not sampled.",
+    note="assumes all shared Chan/selectOp fields are accessed under their mutex (gates are the only scheduling points); stand-in mutex/cond follow POSIX semantics; "
+         "select-default judged by the case-by-case reading (DESIGN C10); one known finding (same-channel select pair) listed in known-findings.txt",
+    design="5 C10")
+
 NOT_YET = {}
 
 props = [json.loads(l) for l in open(os.path.join(V, "properties.jsonl"))]
